@@ -17,7 +17,7 @@ TECHNIQUE = 'runtime monitoring: direct invariant checks on every ray returned b
 LEVEL_TEXT = ('Every ray of every fan computed by the real functions is checked directly: starts at the origin, stays in the area, '
               'visits no cell twice, advances between edge- or corner-sharing cells, ends on the border; the union of the fan '
               '(compute_rays_fancy) must be the whole area, and an unobstructed ray-traced visibility must be all-true. All '
-              'areas up to 6x6 (thorough 9x9) x all origins are enumerated with several anchor offsets incl. negative; the '
+              'areas up to 6x6 (thorough 11x11) x all origins are enumerated with several anchor offsets incl. negative; the '
               'shipped 7x7 view completely. Cached answers are compared with uncached ones after cache_clear() and under '
               'shuffled query orders.')
 LEVEL_NOTE = 'Coverage is claimed for the compute_rays_fancy fan only (compute_ray / compute_rays get the per-ray checks).'
@@ -26,7 +26,7 @@ BUDGET_S = {'quick': 300, 'thorough': 2400}
 RULE = ('case = (area, origin) with its whole fan (each ray checked). non-trivial = area with at least 2 cells; distinct by '
         '(area, origin).')
 ASSUMPTIONS = ['border = cells with y in {ymin,ymax} or x in {xmin,xmax}']
-EXHAUSTIVE_NOTE = 'all areas h,w<=6 (thorough <=9) x all origins, anchored at (0,0) and at shifted/negative offsets; 7x7 view with all origins'
+EXHAUSTIVE_NOTE = 'all areas h,w<=6 (thorough <=11) x all origins, anchored at (0,0) and at shifted/negative offsets; 7x7 view with all origins'
 REQUIRED = {'quick': {'rays.checked': 5000, 'fans.checked': 300, 'cache.compared': 100, 'single_ray.checked': 300,
                       'unobstructed_visibility': 50}}
 
@@ -130,7 +130,7 @@ def unobstructed(ctx, h, w, origin):
 
 def run(ctx):
     with reach(ctx, [rt.compute_ray, rt.compute_rays, rt.compute_rays_fancy]):
-        hmax = ctx.pick(6, 9)
+        hmax = ctx.pick(6, 11)
         idx = 0
         offsets = [(0, 0), (-3, 2), (-7, -7), (11, -4)]
         for h in range(1, hmax + 1):
@@ -165,7 +165,7 @@ def run(ctx):
             fan_case(ctx, Area((0, 6), (0, 6)), Position(6, 3))
             unobstructed(ctx, 7, 7, Position(6, 3))
         # 1-degree fans and single rays
-        for k in range(ctx.pick(6, 60)):
+        for k in range(ctx.pick(6, 200)):
             rng = gen.rng_for('C19deg', ctx.seed, ctx.shard, k)
             h, w = rng.randint(1, 7), rng.randint(1, 7)
             dy, dx = rng.randint(-5, 5), rng.randint(-5, 5)
@@ -188,7 +188,7 @@ def run(ctx):
         # cache histories
         rng = gen.rng_for('C19cache', ctx.seed, ctx.shard)
         queries = []
-        for _ in range(ctx.pick(30, 150)):
+        for _ in range(ctx.pick(30, 400)):
             h, w = rng.randint(1, 5), rng.randint(1, 5)
             dy, dx = rng.randint(-4, 4), rng.randint(-4, 4)
             queries.append((Position(dy + rng.randrange(h), dx + rng.randrange(w)), Area((dy, dy + h - 1), (dx, dx + w - 1))))
